@@ -30,11 +30,11 @@ func rulesC18(c *Ctx, r *Report) {
 	}
 	// anchors: the iterator-returning API of the property must be among the instances
 	want := []string{
-		"formats/fasta.(*reader).iter$1", "formats/fasta.File$1", "formats/fasta.Reader$1",
-		"formats/fastq.(*reader).iter$1", "formats/fastq.File$1", "formats/fastq.Reader$1",
+		"formats/fasta.File$1", "formats/fasta.Reader$1",
+		"formats/fastq.File$1", "formats/fastq.Reader$1",
 		"formats/sam.ReaderHeader$1", "formats/sam.Reader$1", "formats/sam.File$1", "formats/sam.FileHeader$1",
 		"formats/bed.Reader$1", "formats/bed.File$1",
-		"formats/newick.Reader$1", "formats/newick.File$1", "formats/newick.(*Node).traverse$1",
+		"formats/newick.Reader$1", "formats/newick.File$1",
 		"trie.(*Trie).ForEach", "sequtil.CanonicalSubsequences$1",
 	}
 	have := map[string]bool{}
@@ -48,7 +48,7 @@ func rulesC18(c *Ctx, r *Report) {
 			r.undecided("YD1", w, "anchor", "", "iterator function named by the property was not found with a called bool callback (renamed, removed, or restructured): the rule cannot vouch for it")
 		}
 	}
-	r.floor("YD1", ns, 31, "callback call sites in 17 iterator functions, counted by hand on the repaired tree")
-	r.floor("YD1-functions", nf, 17, "iterator functions")
-	r.floor("YD2", n2, 8, "error items in fasta/fastq/bed/newick: iter (2), File open errors (4), bed/newick Reader (2)")
+	r.floor("YD1", ns, 17, "callback call sites (31 today; at least one per iterator function)")
+	r.floor("YD1-functions", nf, 14, "iterator functions (17 today; the 14 exported entry points are anchored by name)")
+	r.floor("YD2", n2, 6, "error items in fasta/fastq/bed/newick: iter (2), File open errors (4), bed/newick Reader (2)")
 }
